@@ -14,6 +14,10 @@ pub struct Counts {
     counters: Mutex<BTreeMap<String, Arc<AtomicU64>>>,
     /// the same increments, kept apart by (name, label values)
     labelled: Mutex<BTreeMap<(String, Vec<String>), Arc<AtomicU64>>>,
+    /// while set, every histogram `record` call blocks (the caller is held inside the recorder)
+    pub hold_histograms: std::sync::atomic::AtomicBool,
+    /// number of histogram `record` calls currently held
+    pub held: AtomicU64,
     histograms: Mutex<BTreeMap<String, Arc<Mutex<Vec<f64>>>>>,
 }
 
@@ -53,9 +57,16 @@ impl CounterFn for C {
         self.1.fetch_max(value, Ordering::SeqCst);
     }
 }
-struct H(Arc<Mutex<Vec<f64>>>);
+struct H(Arc<Mutex<Vec<f64>>>, Arc<Counts>);
 impl HistogramFn for H {
     fn record(&self, value: f64) {
+        if self.1.hold_histograms.load(Ordering::SeqCst) {
+            self.1.held.fetch_add(1, Ordering::SeqCst);
+            while self.1.hold_histograms.load(Ordering::SeqCst) {
+                std::thread::sleep(std::time::Duration::from_micros(200));
+            }
+            self.1.held.fetch_sub(1, Ordering::SeqCst);
+        }
         self.0.lock().unwrap().push(value);
     }
 }
@@ -95,6 +106,6 @@ impl Recorder for CountingRecorder {
             .entry(key.name().to_string())
             .or_default()
             .clone();
-        Histogram::from_arc(Arc::new(H(h)))
+        Histogram::from_arc(Arc::new(H(h, self.0.clone())))
     }
 }
